@@ -873,6 +873,11 @@ func (r *runningStep) executeSubWorkflows(input executeInput) ([]any, map[int]st
 			case sem <- struct{}{}:
 			case <-r.ctx.Done():
 				r.logger.Debugf("Aborting item %d execution.", i)
+				// The item has neither data nor an error otherwise, and the loop would report
+				// success with an empty entry for it.
+				r.lock.Lock()
+				itemErrors[i] = "aborted before execution because the step was closed"
+				r.lock.Unlock()
 				return
 			}
 
